@@ -7,6 +7,7 @@ import (
 	"github.com/aws/aws-sdk-go/aws"
 	"github.com/aws/aws-sdk-go/service/dynamodb"
 	v1 "github.com/truora/minidyn/aws-v1/client"
+	"github.com/truora/minidyn/interpreter"
 
 	"verif/val"
 )
@@ -394,6 +395,15 @@ func (d *V1) do(op Op) Resp {
 	case KTransact:
 		_, err := c.TransactWriteItems(&dynamodb.TransactWriteItemsInput{TransactItems: []*dynamodb.TransactWriteItem{}})
 		return errResp(err)
+	case KActivateNative:
+		c.ActivateNativeInterpreter()
+		return Resp{}
+	case KSetInterpreter:
+		c.SetInterpreter(interpreter.NewNativeInterpreter())
+		return Resp{}
+	case KSetICM:
+		v1.SetItemCollectionMetrics(c, map[string][]*dynamodb.ItemCollectionMetrics{})
+		return Resp{}
 	case KFail:
 		switch op.Fail {
 		case "active_force":
